@@ -96,6 +96,34 @@ class C09(PropBase):
                 n = natural(v, e)
                 k, _ = rng.choice(n[1][1:])
                 out.append(Case('get_last', [['s', e], k], 'get_last', {'u': ui, 'sid': e, 'key': k, 'pos': [kk for kk, _ in n[1]].index(k), 'L': L}))
+            # ... and again after a greater entry was created (same process): the answer follows the data
+            grown = list(L)
+            for _ in range(2):
+                e = rng.choice(leafs)
+                n = natural(v, e)
+                digit_keys = [(i, k) for i, (k, ex) in enumerate(v.types[n[0]]) if ex and '\\d' in ex and i < len(n[1])]
+                if not digit_keys:
+                    continue
+                i, k = rng.choice(digit_keys)
+                segs = e.split('/')
+                if not segs[i][-1:].isdigit() or segs[i].endswith('9' * 2):
+                    continue
+                bigger = segs[i][:-3] + '%03d' % min(int(segs[i][-3:]) + rng.randint(1, 5), 999) if segs[i][-3:].isdigit() else None
+                if not bigger or bigger == segs[i]:
+                    continue
+                e2 = '/'.join(segs[:i] + [bigger] + segs[i + 1:])
+                if not ok(e2):
+                    continue
+                out.append(Case('get_last', [['s', e], k], 'get_last', {'u': ui, 'sid': e, 'key': k, 'pos': i, 'L': list(grown)}))
+                out.append(Case('w_create', ['', e2, []], 'setup', {}))
+                parts = e2.split('/')
+                keys2 = [kk for kk, _ in natural(v, e2)[1]]
+                for j in range(1, len(parts) + 1):
+                    a = '/'.join(parts[:j]); na = natural(v, a)
+                    if na and na[0] in self.with_path and [kk for kk, _ in na[1]] == keys2[:j] and a not in grown:
+                        grown.append(a)
+                grown.sort()
+                out.append(Case('get_last', [['s', e], k], 'get_last', {'u': ui, 'sid': e, 'key': k, 'pos': i, 'L': list(grown)}))
         out.append(Case('fs_reset', [], 'setup', {}))
         return out
     def gt_search(self, rng, v, items):
